@@ -35,6 +35,29 @@ def _state(p):
     return p.model._inputs.asarray(copy=True), p.model._outputs.asarray(copy=True)
 
 
+_EPS = float(np.finfo(float).eps)
+
+
+def _state_unchanged(vec, a, b):
+    """True when the stored vector is unchanged.  Vectors of a model with scaling are stored normalized and every
+    query converts them to physical values and back ((v*a0 + a1) - a1)/a0, which is exact only to round-off:
+    there 'unchanged' means within 16*eps*(|v| + |a1/a0|) per entry (4 round trips of the 4-operation bound);
+    unscaled vectors must be bitwise equal."""
+    if a.shape != b.shape:
+        return False, False
+    if np.array_equal(a, b):
+        return True, False
+    sc = getattr(vec, '_scaling', None)
+    if not sc or sc[0] is None:
+        return False, False
+    a0 = np.asarray(sc[0], dtype=float)
+    a1 = np.zeros_like(a0) if sc[1] is None else np.asarray(sc[1], dtype=float)
+    if a0.shape != a.shape or (np.all(a0 == 1.0) and not np.any(a1)):
+        return False, False
+    bound = 16 * _EPS * (np.abs(a) + np.abs(a1 / a0))
+    return bool(np.all(np.abs(a - b) <= bound)), True
+
+
 def _apply_state_op(p, op, ref):
     from vfw.props.c02 import _seed
     if op['op'] == 'run_model':
@@ -80,6 +103,7 @@ def check(case):
         res.fail('determinism:two-fresh-problems-differ-after-run_model', 'outputs differ bitwise')
     kinds_between = set()
     max_kinds = 0
+    roundoff_drift = False
     iterating = any(g.get('nl') not in (None, 'runonce') for g in spec['groups'].values()) or \
         any(c.get('self_solve') == 'solvers' for c in spec['comps'])
     for i, op in enumerate(case['ops']):
@@ -95,7 +119,9 @@ def check(case):
                     a, b = p.model._outputs.asarray(), t.model._outputs.asarray()
                     # iterative solvers warm-start their linear solves from the linear vectors, which queries
                     # legitimately use as work space: agreement to solver tolerance there, bitwise otherwise
-                    same = np.allclose(a, b, rtol=1e-9, atol=1e-12) if iterating else np.array_equal(a, b)
+                    # (the same tolerance once a scaled vector has gone through a normalize/physical round trip
+                    # that the twin has not, see _state_unchanged)
+                    same = np.allclose(a, b, rtol=1e-9, atol=1e-12) if (iterating or roundoff_drift) else np.array_equal(a, b)
                     if not same:
                         j = int(np.argmax(a != b))
                         res.fail('leak:run_model-after-queries-differs-from-twin',
@@ -138,8 +164,11 @@ def check(case):
             res.fail(sig, f"op {i} {name}: {type(e).__name__}: {e}")
             break
         after = _state(p)
-        for lab, a, b in (('inputs', before[0], after[0]), ('outputs', before[1], after[1])):
-            if a.shape != b.shape or not np.array_equal(a, b):
+        for lab, vec, a, b in (('inputs', p.model._inputs, before[0], after[0]), ('outputs', p.model._outputs, before[1], after[1])):
+            same, drift = _state_unchanged(vec, a, b)
+            if drift:
+                roundoff_drift = True
+            if not same:
                 j = int(np.argmax(a != b)) if a.shape == b.shape else -1
                 res.fail(f"state-changed:{name}:{lab}", f"op {i} {name}: {lab}[{j}] {a[j]!r} -> {b[j]!r}")
     max_kinds = max(max_kinds, len(kinds_between))
@@ -151,9 +180,14 @@ def check(case):
             res.fail('leak:final-totals-differ-from-twin', f"{Jp.tolist()} vs {Jt.tolist()}")
     except om.AnalysisError:
         pass
+    except Exception as e:
+        sig = core.repo_frame_signature(e, 'final-totals')
+        if sig is None:
+            raise
+        res.fail(sig, f"compute_totals after the history raises {type(e).__name__}: {e}")
     solver = any(g.get('nl') not in (None, 'runonce') for g in spec['groups'].values())
     res.nontrivial = max_kinds >= 3 and (solver or 'matfree' in flags)
-    res.classes = cls + ['judged'] + [f"op_{o['op']}" for o in case['ops']]
+    res.classes = cls + ['judged'] + (['scaled-vector-roundoff-drift'] if roundoff_drift else []) + [f"op_{o['op']}" for o in case['ops']]
     return res
 
 
